@@ -194,6 +194,11 @@ func (r *Report) Finish(verifDir string) int {
 		}
 	}
 
+	if os.Getenv("WPVERIF_DEBUG") != "" {
+		for _, o := range r.Obls {
+			fmt.Printf("  [%s] %s (%s) %s -- %s\n", o.Status, o.Key, o.Config, o.Pos, o.How)
+		}
+	}
 	violDir := filepath.Join(verifDir, "evidence", "violations")
 	// stale replay files of this property are removed on every run
 	if old, _ := filepath.Glob(filepath.Join(violDir, r.Prop+"-*.json")); len(old) > 0 {
